@@ -853,12 +853,21 @@ impl<'a> RepositoryUpdate<'a> {
         self.metrics.serial = Some(notify.content().serial());
         self.metrics.session = Some(notify.content().session_id());
 
+        // Deltas are applied to the archive in place. If that fails half
+        // way through, the archive contains neither the version its state
+        // claims nor the new one.
+        let mut tainted = false;
         if let Some((archive, state)) = current {
             match self.delta_update(&notify, archive, state)? {
                 None => {
                     return Ok(true)
                 }
                 Some(reason) => {
+                    tainted = matches!(
+                        reason,
+                        SnapshotReason::ConflictingDelta
+                        | SnapshotReason::CorruptArchive
+                    );
                     self.metrics.snapshot_reason = Some(reason)
                 }
             }
@@ -866,7 +875,14 @@ impl<'a> RepositoryUpdate<'a> {
         else {
             self.metrics.snapshot_reason = Some(SnapshotReason::NewRepository);
         }
-        self.snapshot_update(&notify)
+        let updated = self.snapshot_update(&notify)?;
+        if !updated && tainted {
+            // The snapshot did not replace the archive. Remove it so that
+            // a later Not Modified response or unchanged serial cannot
+            // make us use its content.
+            fatal::remove_file(self.path.as_ref())?;
+        }
+        Ok(updated)
     }
 
     /// Handle the case of a Not Modified response.
